@@ -533,7 +533,7 @@ def r13_lazy_chain(ctx, rule='R13z'):
     ok = False
     for n in own_nodes(pr.node):
         if isinstance(n, ast.Call) and ctx.res.instantiates(n, 'DataStream'):
-            for a in n.args:
+            for a in list(n.args) + [k.value for k in n.keywords]:
                 if isinstance(a, ast.Call) and ctx.res.instantiates(a, 'LazyIterator') and a.args and \
                         isinstance(a.args[0], ast.Call) and isinstance(a.args[0].func, ast.Attribute) and \
                         a.args[0].func.attr == 'get_iterator':
